@@ -27,11 +27,13 @@
    Two readings of the first / last stamp of the frame:
      as coded   earliest.replace(hour=0) / latest.replace(hour=23) keep the `fold` of the stamp they start from:
                 on a day whose 00:00 occurs twice (clock put back at 01:00, America/Havana) a first supplied stamp
-                that is the *second* 00:00 makes the frame start there ([lo_skip]); on a day whose 23:00 occurs
-                twice (clock put back at 24:00, America/Santiago, Asia/Beirut, America/Sao_Paulo) a last supplied
-                stamp at or before the *first* 23:00 makes the frame end at the first 23:00 ([hi_skip]).
+                that is the *second* 00:00 makes the frame start there ([lo_fwd] = 60 instead of 0); on a day whose
+                23:00 occurs twice (clock put back at 24:00, America/Santiago, Asia/Beirut, America/Sao_Paulo) a last
+                supplied stamp other than the *second* 23:00 makes the frame end at the first 23:00 ([hi_back] = 120
+                instead of 60).  A day whose last clock hour is cut short (Asia/Pyongyang 2018-05-04, 23:30 -> 00:00)
+                has [hi_back] = 30.
      whole days [no_skip]: from the first minute of the first supplied local day to the last hour of the last one.
-   [edges] says which of the two situations the input is in (computed by the harness from the tz database). *)
+   [edges] says which situation the input is in (computed by the harness from the tz database, not by pandas). *)
 From Coq Require Import ZArith List Bool FMapPositive.
 Import ListNotations.
 Open Scope Z_scope.
@@ -45,8 +47,10 @@ Definition AUTOCORR_MIN_ROWS : Z := 72.
 Definition present {B} (o : option B) : bool := match o with Some _ => true | None => false end.
 Definition missing {B} (o : option B) : bool := negb (present o).
 
-Record edges := mkedges { lo_skip : bool; hi_skip : bool }.
-Definition no_skip : edges := mkedges false false.
+(* [lo_fwd]: minutes from the start of the first supplied local day to the stamp earliest.replace(hour=0) denotes;
+   [hi_back]: minutes from the stamp latest.replace(hour=23) denotes to the start of the following local day *)
+Record edges := mkedges { lo_fwd : Z; hi_back : Z }.
+Definition no_skip : edges := mkedges 0 STEP.
 
 (* ------------------------------------------------------------------ local days *)
 (* start of the local day that contains t: the last boundary <= t (bnds ascending) *)
@@ -64,8 +68,7 @@ Fixpoint day_next (bnds : list Z) (t dflt : Z) : Z :=
 
 (* first and last stamp of the frame: local 00:00 of the first supplied day, local 23:00 of the last *)
 Definition day_range (bnds : list Z) (e : edges) (tmin tmax : Z) : Z * Z :=
-  (day_start bnds tmin tmin + (if lo_skip e then STEP else 0),
-   day_next bnds tmax (tmax + STEP) - STEP - (if hi_skip e then STEP else 0)).
+  (day_start bnds tmin tmin + lo_fwd e, day_next bnds tmax (tmax + STEP) - hi_back e).
 
 Fixpoint grid_from (n : nat) (t : Z) : list Z :=
   match n with O => [] | S n' => t :: grid_from n' (t + STEP) end.
